@@ -46,7 +46,7 @@ type Engine struct{}
 func (Engine) Name() string { return "e2res" }
 
 var runs = map[string][2]int{ // quick, thorough
-	"C12": {160, 5000}, // plans; a plan is 10^3 .. 3*10^5 evaluations (measured: quick 1.8 M, thorough ~250 M evaluations)
+	"C12": {208, 6400}, // plans; a plan is 10^3 .. 3*10^5 evaluations (measured: quick 1.8 M, thorough ~250 M evaluations)
 	"C14": {6000, 800000},
 	"C16": {2400, 250000},
 }
